@@ -9,11 +9,19 @@
 //! Math. Comp. 48, 1987, <https://doi.org/10.1090/S0025-5718-1987-0866119-8>
 
 use std::cmp::{max, min};
+#[cfg(not(yamaquasi_verif_loom))]
 use std::sync::atomic::{AtomicBool, AtomicUsize, Ordering};
+#[cfg(yamaquasi_verif_loom)]
+use crate::verif_shim::sync::atomic::{AtomicBool, AtomicUsize, Ordering};
+#[cfg(not(yamaquasi_verif_loom))]
 use std::sync::RwLock;
+#[cfg(yamaquasi_verif_loom)]
+use crate::verif_shim::sync::RwLock;
 
 use bnum::cast::CastFrom;
 use rayon::prelude::*;
+#[cfg(yamaquasi_verif_loom)]
+use crate::verif_shim as rayon;
 
 use crate::arith::{self, isqrt, pow_mod, Num, I256, U256};
 use crate::arith_gcd::inv_mod;
